@@ -9,20 +9,20 @@
 open Model
 open Conv
 
-let parse_bat (s : string) : bat =
+let parse_bat (s : Stdlib.String.t) : bat =
   match String.split_on_char ':' s with
   | [h; c] ->
     let hdr = if h = "N" then None else Some (bytes_of_hex (String.sub h 1 (String.length h - 1))) in
     { b_hdr = hdr; b_ctl = (c = "1") }
   | _ -> failwith ("bad batch " ^ s)
 
-let parse_state (s : string) : file =
+let parse_state (s : Stdlib.String.t) : file =
   if s = "-" then [] else List.map parse_bat (String.split_on_char ',' s)
 
-let parse_opts (s : string) : bool list option =
+let parse_opts (s : Stdlib.String.t) : bool list option =
   if s = "n" then None else Some (List.init (String.length s) (fun i -> s.[i] = '1'))
 
-let parse_file (s : string) : bytes * xfile =
+let parse_file (s : Stdlib.String.t) : bytes * xfile =
   match String.index_opt s '=', String.rindex_opt s '/' with
   | Some e, Some sl when sl > e ->
     let id = bytes_of_hex (String.sub s 0 e) in
@@ -31,10 +31,10 @@ let parse_file (s : string) : bytes * xfile =
     (id, { x_bats = st; x_opts = o })
   | _ -> failwith ("bad file " ^ s)
 
-let show_bat (b : bat) : string =
+let show_bat (b : bat) : Stdlib.String.t =
   (match b.b_hdr with None -> "N" | Some h -> "H" ^ hex_of_bytes h) ^ ":" ^ (if b.b_ctl then "1" else "0")
 
-let show_state (f : (bytes option * bool) list) : string =
+let show_state (f : (bytes option * bool) list) : Stdlib.String.t =
   match f with
   | [] -> "-"
   | _ -> String.concat "," (List.map (fun (h, c) -> show_bat { b_hdr = h; b_ctl = c }) f)
@@ -43,14 +43,14 @@ let show_opts = function
   | None -> "n"
   | Some l -> String.concat "" (List.map (fun b -> if b then "1" else "0") l)
 
-let show_store (st : store) : string =
+let show_store (st : store) : Stdlib.String.t =
   String.concat ";" (List.map (fun (id, (bs, o)) -> hex_of_bytes id ^ "=" ^ show_state bs ^ "/" ^ show_opts o) (store_observe st))
 
-let flags (s : string) : vflags =
+let flags (s : Stdlib.String.t) : vflags =
   let b i = s.[i] = '1' in
   { v_skipAll = b 0; v_allowMissing = b 1; v_hdrOk = b 2; v_ok = b 3 }
 
-let parse_op (s : string) : op =
+let parse_op (s : Stdlib.String.t) : op =
   let arg () = nat_of_int (int_of_string (String.sub s 1 (String.length s - 1))) in
   let fl () = flags (String.sub s 1 4) in
   match s.[0] with
@@ -63,7 +63,7 @@ let parse_op (s : string) : op =
   | 'X' -> OWriteValidating (fl ())
   | _ -> failwith ("bad op " ^ s)
 
-let parse_rq (s : string) : srq =
+let parse_rq (s : Stdlib.String.t) : srq =
   match String.index_opt s ':' with
   | Some c ->
     let id = bytes_of_hex (String.sub s 1 (c - 1)) in
